@@ -387,6 +387,7 @@ class Pair(object):
         out = self.rs.request(req)
         self.steps.append({'req': req})
         oracle(self.res, self, req, out)
+        oracle_counters(self.res, self, req, out)
         mreq = R.model_request(req)
         if mreq is None:
             self.res.stats.skipped += 1
@@ -509,6 +510,37 @@ def oracle(res, pair, req, out):
                              key='faithful-bytes')
                 else:
                     res.stats.hit('faithful_checked_' + rule.rsplit('/', 1)[1])
+
+
+STAT_OF_TYPE = {1: 'Opens', 2: 'Updates', 3: 'Notifications', 4: 'Keepalives', 5: 'RouteRefresh', 128: 'RouteRefresh'}
+
+
+def oracle_counters(res, pair, req, out):
+    """C18 on REST requests: what a request adds to the sent counters of the tracked connection is what it wrote to it,
+    by kind.  An octet string that is not exactly one BGP message (possible through send/bin_update only) is outside the
+    claim and skipped."""
+    b, a = out['before'], out['after']
+    if not b.get('stats') or not a.get('stats') or b.get('proto') is None or b.get('proto') != a.get('proto'):
+        return
+    wrote = {}
+    for o in out['obs']['outs']:
+        if o[0] != 'write' or o[1] != b['proto']:
+            continue
+        raw = bytes.fromhex(o[2])
+        if len(raw) < 19 or int.from_bytes(raw[16:18], 'big') != len(raw) or raw[18] not in STAT_OF_TYPE or \
+                (req['rule'].endswith('bin_update') and raw[18] != 2):
+            # send/bin_update is for UPDATE messages built elsewhere; other octets are outside the claim (`BinIsUpdate`)
+            res.stats.hit('counters_skipped_not_one_message')
+            return
+        wrote[STAT_OF_TYPE[raw[18]]] = wrote.get(STAT_OF_TYPE[raw[18]], 0) + 1
+    res.stats.hit('counters_checked' + ('_with_write' if wrote else ''))
+    for name in ('Opens', 'Updates', 'Notifications', 'Keepalives', 'RouteRefresh'):
+        d = a['stats']['send'].get(name, 0) - b['stats']['send'].get(name, 0)
+        if d != wrote.get(name, 0):
+            res.fail('C18', '%s %s: sent counter %s moved by %d, %d such messages were written' % (
+                req['method'], req['rule'], name, d, wrote.get(name, 0)),
+                dict(pair.case(), request=req, answer=out['resp'], outs=out['obs']['outs']), key='rest-sent-counter')
+            return
 
 
 def describe_change(out):
